@@ -959,18 +959,21 @@ def spelling_stream(ctx, T, corr):
         c = gen_spelling_case(ctx, T)
         if not geom_safe(c):
             continue
+        hpos = hlog({"input": public(c)})
         out = impl_from_arrays(c)
         bad = oracle(T, c, out)
         if bad:
-            corr.failures.append({"stream": "spelling", "case": {"input": public(c)}, "what": bad, "observed": out, "entry": "from_arrays"})
+            corr.failures.append({"stream": "spelling", "case": {"input": public(c)}, "what": bad, "observed": out, "entry": "from_arrays",
+                                  "_hpos": hpos})
             continue
         for nm, _ in spellings_of(c):
             corr.count("spelling")
             corr.hit("spelling_" + nm.split(" ")[0] + "_" + out[0])
+            hpos = hlog({"input": public(c), "spelling": nm})
             bad = spelling_judge(c, nm)
             if bad and sum(1 for f in corr.failures if f["stream"] == "spelling") < 8:
                 corr.failures.append({"stream": "spelling", "case": {"input": public(c), "spelling": nm}, "what": bad, "observed": out,
-                                      "entry": "from_arrays"})
+                                      "entry": "from_arrays", "_hpos": hpos})
 
 
 def geom_safe(c):
@@ -1506,6 +1509,7 @@ def schema_stream(ctx, T, corr):
         except Exception:
             pass
         k += 1
+        hpos = hlog({"schema": public(sc)})
         out, mol = schema_impl(sc)
         corr.count("schema")
         corr.hit("schema_%s_%s" % (sc["fkind"], out[0] if out[0] == "Ok" else "Err_" + out[1]))
@@ -1514,7 +1518,7 @@ def schema_stream(ctx, T, corr):
         bad = schema_oracle(T, sc, out, mol)
         if bad:
             corr.failures.append({"stream": "schema", "case": {"schema": public(sc)}, "what": bad[1], "observed": [out, mol], "entry": bad[0],
-                                  "fkind": sc["fkind"]})
+                                  "fkind": sc["fkind"], "_hpos": hpos})
         sterms.append(f"(({schema_term(sc)}, {cbool(sc.get('nonphysical', False))}), {out_term(out)})")
         smeta.append((sc, out))
         if mol is not None and (mol[0] == "Ok" or mol[1] in REFUSAL):
@@ -1657,9 +1661,80 @@ def public(c):
     return {k: v for k, v in c.items()}
 
 
+# ------------------------------------------------------------------------------------------------
+# failures that depend on earlier calls of the same process (a memo keyed too coarsely, a mutated module-level table):
+# every case that goes through the implementation is logged in order; a failure whose case alone does NOT fail in a fresh
+# interpreter is recorded as the shortest suffix of the log that does (harness/histseq.py), so that the replay is self-contained.
+
+HLOG = []
+
+
+def hlog(step):
+    HLOG.append(step)
+    return len(HLOG)
+
+
+def run_step(T, step):
+    """one logged step through the implementation and the oracle; the complaint or None"""
+    if "schema" in step:
+        return judge_schema(T, dict(step["schema"]))[1]
+    c = dict(step["input"])
+    if c.get("conn") is not None:
+        c["conn"] = [tuple(t) for t in c["conn"]]
+    if c.get("frag_pattern") is None and c.get("parts") is not None:
+        c["parts"] = list(c["parts"])
+    if "spelling" in step:
+        return spelling_judge(c, step["spelling"])
+    return judge(T, c)[1]
+
+
+def run_history(steps):
+    """histseq interface: the steps one after the other in this interpreter; complaints about the LAST one"""
+    T = c06.table(None)
+    bad = None
+    for k, st in enumerate(steps):
+        try:
+            bad = run_step(T, st)
+        except Exception as e:        # an earlier step may crash on a changed tree; only the last one is judged
+            bad = f"crashed: {type(e).__name__}: {e}"[:300] if k == len(steps) - 1 else None
+    return [str(bad)] if bad else []
+
+
+def localise_histories(ctx, corr):
+    from .. import histshrink
+    import json
+    done, tries = set(), {}
+    for f in list(corr.failures):
+        st = f.get("stream")
+        if st in done or "_hpos" not in f or tries.get(st, 0) >= 3:
+            continue
+        try:
+            if any(m(f) for m in KNOWN.values()):
+                continue
+        except Exception:
+            pass
+        tries[st] = tries.get(st, 0) + 1
+        steps = json.loads(json.dumps(HLOG[:f["_hpos"]]))
+        hist, complaints, ok = histshrink.shrink("c04", steps, budget=16)     # shortest failing suffix, then chunks of it removed
+        if ok and len(hist) == 1:
+            done.add(st)                 # the case alone fails in a fresh interpreter: an ordinary failing input
+            continue
+        corr.failures.remove(f)
+        if ok:
+            ctx.log(f"failure in stream {st} depends on earlier calls: shortest failing history has {len(hist)} steps")
+            f["case"] = {"history": hist}
+            f["what"] = "the last call of this history is judged wrongly only after the earlier ones (state kept between calls): " + complaints[0]
+            corr.failures.insert(0, f)
+            done.add(st)
+        else:
+            f["not_reproduced_in_fresh_interpreter"] = True
+            corr.failures.append(f)      # not reproducible from the log: let another failure of the stream speak first
+
+
 def correspond(ctx):
     T = c06.table(ctx)
     corr = Corr()
+    del HLOG[:]
     corr.rule = ("molecules of 0-12 atoms on a jittered lattice (3-decimal coordinates) x random subsets of per-atom descriptors (full, "
                  "partially None, consistent or with one conflicting clue) x fragment separators (valid, negative-equivalent, random, "
                  "empty/duplicate/out-of-range) x partial charges/multiplicities x units/input_units_to_au/frame/connectivity x "
@@ -1711,6 +1786,7 @@ def correspond(ctx):
             unsafe.add(id(c))
     terms, meta, rterms, rmeta = [], [], [], []
     for stream, c in cases:
+        hpos = hlog({"input": public(c)})
         out = impl_from_arrays(c)
         corr.count(stream)
         corr.hit("impl_" + (out[0] if out[0] == "Ok" else "Err_" + out[1]))
@@ -1733,7 +1809,7 @@ def correspond(ctx):
         if out[0] == "Ok":
             corr.count("fed_back")
         if bad:
-            corr.failures.append({"stream": "oracle", "case": {"input": public(c)}, "what": bad, "observed": out, "entry": where})
+            corr.failures.append({"stream": "oracle", "case": {"input": public(c)}, "what": bad, "observed": out, "entry": where, "_hpos": hpos})
         if id(c) not in unsafe:
             terms.append(f"({raw_term(c)}, {out_term(out)})")
             meta.append((stream, c, out))
@@ -1749,24 +1825,26 @@ def correspond(ctx):
     for c in gen_far_sweep(ctx, T, 160 if ctx.thorough else 24):
         if not geom_safe(c):
             continue
+        hpos = hlog({"input": public(c)})
         out, bad, where = judge(T, c)
         corr.count("far_sweep")
         mal = malformation(T, c)
         corr.hit("far_sweep_" + ("overlap" if mal else "clear") + "_" + (out[0] if out[0] == "Ok" else "Err_" + out[1]))
         if bad and sum(1 for f in corr.failures if f["stream"] == "far_sweep") < 12:
-            corr.failures.append({"stream": "far_sweep", "case": {"input": public(c)}, "what": bad, "observed": out, "entry": where})
+            corr.failures.append({"stream": "far_sweep", "case": {"input": public(c)}, "what": bad, "observed": out, "entry": where, "_hpos": hpos})
     spelling_stream(ctx, T, corr)
     # fragment patterns through from_schema / Molecule (implementation only)
     n_fp = 12000 if ctx.thorough else 1200
     for k in range(len(FRAG_CORPUS) + n_fp):
         c = dict(FRAG_CORPUS[k]) if k < len(FRAG_CORPUS) else gen_fragpattern(ctx, T)
+        hpos = hlog({"input": public(c)})
         where, bad, obs = fragpattern_oracle(T, c)
         corr.count("fragpattern")
         corr.hit("fragpattern_%s_%s" % (c["kind"], obs.get("from_schema")))
         if obs.get("from_schema") == "Ok":
             corr.nontriv(public(c))
         if bad:
-            corr.failures.append({"stream": "fragpattern", "case": {"input": public(c)}, "what": bad, "observed": obs, "entry": where})
+            corr.failures.append({"stream": "fragpattern", "case": {"input": public(c)}, "what": bad, "observed": obs, "entry": where, "_hpos": hpos})
     corr.sample({"input": public(cases[0][1]), "output": impl_from_arrays(cases[0][1])})
     schema_stream(ctx, T, corr)
     bad, errors = coqrun.eval_bad_indices("C04R", SREQ, "", "check_roundtrip", rterms, shard=300, ty="(Z * molrec) * outcome molrec")
@@ -1782,6 +1860,8 @@ def correspond(ctx):
         stream, c, out = meta[b]
         got, _ = coqrun.eval_terms("C04", REQ, "", [f"from_arrays {raw_term(c)}"])
         corr.disagreements.append({"stream": stream, "case": {"input": public(c)}, "impl": out, "model": got})
+    if corr.failures:
+        localise_histories(ctx, corr)
     corr.exhaustive = False
     return corr
 
@@ -1829,6 +1909,11 @@ def search(ctx, corr, reasons):
 
 def replay(ctx, rp):
     T = c06.table(ctx)
+    if "history" in rp["case"]:
+        from .. import histseq
+        got = histseq.fresh_run("c04", list(rp["case"]["history"]))      # a fresh interpreter on the same implementation tree
+        return {"history_steps": len(rp["case"]["history"]), "last_step": rp["case"]["history"][-1], "oracle": got,
+                "fails": bool(got), "note": None if got is not None else "the history could not be run"}
     if "schema" in rp["case"]:
         sc = dict(rp["case"]["schema"])
         out, bad, where = judge_schema(T, sc)
